@@ -51,7 +51,7 @@ TRUSTED = [
     "worker threads (the non-atomic `done += 1` read-modify-write in gather_futures). The real 1-/2-worker pool stage exercises real threads (decisive for deadlocks, smoke for races).",
 ]
 
-CONFIGS = ("blocking", "generic-blocking", "asyncio", "threadpool")
+CONFIGS = ("blocking", "generic-blocking", "asyncio", "threadpool") + tuple(W.SUBCLASS_CONFIGS) + ("generic-blocking/SubBlocking",)
 
 
 def dumps(x, **kw):
@@ -140,6 +140,9 @@ class Checker:
         yield "blocking", None, W.run_blocking(case)
         yield "generic-blocking", None, W.run_blocking(case, generic=True)
         ntasks = W.count_tasks(case)
+        if self.subclasses(case) and configs == ("asyncio", "threadpool"):
+            yield "generic-blocking/SubBlocking", None, W.run_blocking(case, generic=True, subclass=True)
+            configs = configs + W.SUBCLASS_CONFIGS
         for config in configs:
             runner = W.RUNNERS[config]
             if ntasks <= self.max_tasks_all:
@@ -192,7 +195,9 @@ class Checker:
         out = []
         old = W.CLASS_SALT
         try:
-            for salt in range(len(W.UNEXPECTED_CLASSES)):
+            n = len(W.UNEXPECTED_CLASSES)
+            start = sum(map(ord, dumps(case, sort_keys=True))) % n       # 8 consecutive classes per case, rotating over cases
+            for salt in [(start + i) % n for i in range(n if self.ctx.tier == "thorough" else 8)]:
                 W.CLASS_SALT = salt
                 ref = W.run_blocking(case)
                 for config, obs in (("generic-blocking", W.run_blocking(case, generic=True)),
@@ -230,7 +235,7 @@ class Checker:
             # an `async def` method starts its body only when the loop schedules it: call order differs from the callback model
             ctx.stat("model-comparison-skipped(async-def method)")
             return
-        if config == "asyncio" and "ready" in W.features(case):
+        if config.startswith("asyncio") and "ready" in W.features(case):
             # an already finished awaitable is only looked at when the loop next runs: the call order (and with it the
             # queue the schedule indexes) legitimately differs from the callback model; the direct oracle still applies
             ctx.stat("model-comparison-skipped(asyncio+ready)")
@@ -286,6 +291,12 @@ class Checker:
             return case
 
     # -- one case, fully ----------------------------------------------------
+    def subclasses(self, case):
+        """user-runtime (subclass) configurations: every mutation in C09, every third operation in C08"""
+        if self.prop == "C09":
+            return case["kind"] == "mutation"
+        return sum(map(ord, dumps(case, sort_keys=True))) % 3 == 0
+
     def enough(self):
         """stop generating once a few distinct NEW failures are in hand (keeps a broken tree's run short)"""
         import common
@@ -1031,6 +1042,180 @@ def history_stream(ctx, prop):
     ctx.extra["history_runs"] = n
 
 
+# ---------------------------------------------------------------------------
+# named probes (fixed cases)
+
+def probe_many_root_fields(ctx, prop, kinds=("query", "mutation"), counts=(100, 400, 1000)):
+    """
+    NAMED PROBE (scale limit, like C01's P1): `{ a1: m a2: m ... aN: m }` with synchronous resolvers must be answered alike
+    by BlockingExecutor and by the generic Executor. Finding E4: `execute_fields_serially._next` recursed per field.
+    """
+    import sys
+    from py_gql import build_schema, process_graphql_query
+    from py_gql.execution import BlockingExecutor, Executor
+    from py_gql.execution.runtime import BlockingRuntime
+    schema = build_schema("type Query { m: Int } type Mutation { m: Int }")
+    schema.register_resolver("Query", "m", lambda *a, **k: 1)
+    schema.register_resolver("Mutation", "m", lambda *a, **k: 1)
+
+    def one(kind, n, cls):
+        q = kind + " { " + " ".join("a%d: m" % i for i in range(n)) + " }"
+        try:
+            r = process_graphql_query(schema, q, runtime=BlockingRuntime(), executor_cls=cls)
+            return ["ok", len(r.data or {}), list(r.data or {})[:1] + list(r.data or {})[-1:], len(r.errors)]
+        except RecursionError:
+            return ["RecursionError"]
+        except Exception as err:  # noqa
+            return ["failed", type(err).__name__]
+
+    for kind in kinds:
+        first_bad = None
+        for n in counts:
+            ref, got = one(kind, n, BlockingExecutor), one(kind, n, Executor)
+            ctx.count()
+            ctx.stat("probe:%d-root-fields:%s:%s" % (n, kind, got[0]))
+            if got != ref and first_bad is None:
+                first_bad = (n, ref, got)
+        if first_bad:
+            n, ref, got = first_bad
+            ctx.fail("%s:scale:%s-root-fields:%s" % (prop.lower(), kind, got[0]),
+                     "%s with %d aliased root fields: generic Executor gives %s, BlockingExecutor gives %s (recursion limit %d)"
+                     % (kind, n, got, ref, sys.getrecursionlimit()),
+                     {"probe": "many-root-fields", "kind": kind, "count": n, "counts_tried": list(counts)})
+
+
+def probe_resolver_raises_execution_error(ctx):
+    """NAMED PROBE (finding E5): a resolver raising the library's `ExecutionError` must be reported alike by all configurations."""
+    import asyncio
+    from py_gql import build_schema, process_graphql_query
+    from py_gql.exc import ExecutionError
+    from py_gql.execution import BlockingExecutor, Executor
+    from py_gql.execution.runtime import AsyncIORuntime, BlockingRuntime, ThreadPoolRuntime
+    schema = build_schema("type Query { n: Int m: Int }")
+
+    def boom(*a, **k):
+        raise ExecutionError("raised by a resolver")
+    schema.register_resolver("Query", "m", boom)
+    schema.register_resolver("Query", "n", lambda *a, **k: 1)
+
+    def canon(fn):
+        try:
+            r = fn()
+            return ["response", dumps(r.data), [type(e).__name__ for e in r.errors]]
+        except Exception as err:  # noqa
+            return ["raises", type(err).__name__]
+
+    def on_loop():
+        loop = W.private_loop()
+
+        async def main():
+            return await process_graphql_query(schema, "{ n m }", runtime=AsyncIORuntime(), executor_cls=Executor)
+        return loop.run_until_complete(asyncio.wait_for(main(), 20))
+
+    def on_pool():
+        rt = ThreadPoolRuntime(max_workers=2)
+        try:
+            return process_graphql_query(schema, "{ n m }", runtime=rt, executor_cls=Executor).result(timeout=20)
+        finally:
+            rt._inner.shutdown(wait=False)
+
+    ref = canon(lambda: process_graphql_query(schema, "{ n m }", runtime=BlockingRuntime(), executor_cls=BlockingExecutor))
+    for cfg, fn in (("generic-blocking", lambda: process_graphql_query(schema, "{ n m }", runtime=BlockingRuntime(), executor_cls=Executor)),
+                    ("asyncio-graphql()", on_loop), ("threadpool-real-w2", on_pool)):
+        got = canon(fn)
+        ctx.count()
+        if got != ref:
+            ctx.fail("c08:resolver-raises-ExecutionError:%s" % cfg,
+                     "a resolver raising ExecutionError: %s gives %s, BlockingExecutor gives %s" % (cfg, got, ref),
+                     {"probe": "resolver-raises-ExecutionError", "config": cfg, "blocking": ref, "got": got})
+
+
+# ---------------------------------------------------------------------------
+# abandoned resolvers under graphql()'s default AsyncIORuntime (thread off-loading on)
+
+def abandoned_cases():
+    I = {"t": "int"}
+    sub = {"t": "obj", "fields": [{"key": "a", "mode": "deferred", "ty": I}, {"key": "b", "mode": "deferred", "ty": I}]}
+    item = {"a": {"r": "ok", "v": 1}, "b": {"r": "ok", "v": 2}}
+    tail = [{"key": "m2", "mode": "deferred", "ty": I, "out": {"r": "ok", "v": 7}},
+            {"key": "m3", "mode": "deferred", "ty": I, "out": {"r": "ok", "v": 8}}]
+    out = []
+    for n_items in (1, 2):
+        out.append({"kind": "mutation", "fields": [
+            {"key": "m1", "mode": "deferred", "ty": {"t": "list", "of": sub},
+             "out": {"r": "ok", "v": {"lazy": [item] * n_items, "fail": True}}}] + tail})
+    out.append({"kind": "mutation", "fields": [
+        {"key": "m1", "mode": "deferred", "ty": {"t": "list", "of": dict(sub, abstract=True)},
+         "out": {"r": "ok", "v": [item, "cerr", item]}}] + tail})
+    out.append(dict(out[0], style="spread"))
+    return out
+
+
+def abandoned_stage(ctx, prop):
+    """
+    `py_gql.graphql()` = a DEFAULT `AsyncIORuntime()`: plain `def` resolvers are off-loaded to the loop's worker threads, lazily
+    (nothing runs before the executor awaits the wrapped call). A top-level list field whose completion raises ResolverError
+    after earlier items' sub-field resolvers were CALLED abandons those calls: they must not run during / after the next
+    top-level mutation field (on the unchanged tree they never run at all). Oracle: no `body`/`done` event of an earlier
+    top-level field's subtree after the `call` of a later top-level field; data / errors equal to BlockingExecutor's.
+    """
+    import asyncio
+    import threading
+    import time
+    import py_gql
+    lock = threading.Lock()
+
+    class W2(W.World):
+        def ev(self, kind, path):
+            with lock:
+                self.trace.append([kind, list(path)])
+
+        def resolve(self, info, explicit):
+            path = tuple(info.path)
+            self.ev("call", path)
+            if len(path) > 1:
+                time.sleep(0.03)            # a sub-field write that is still running when the next root field starts
+            return self.body(path)
+
+    n = 0
+    for case in abandoned_cases():
+        ref = W.run_blocking(case)
+        w = W2(case)
+        schema = W.build_schema(case, all_explicit=True)
+        loop = W.private_loop()
+        try:
+            res = loop.run_until_complete(asyncio.wait_for(py_gql.graphql(schema, W.document(case), context=w), 30))
+            loop.run_until_complete(asyncio.sleep(0.15))          # let stragglers finish and record their events
+            obs = W.obs_of_result(w, result=res, status="ok")
+        except asyncio.TimeoutError:
+            obs = W.obs_of_result(w, status="pending")
+        except Exception as err:  # noqa
+            obs = W.obs_of_result(w, exc=err, status="failed")
+        ctx.count()
+        n += 1
+        detail = {"stream": "abandoned", "case": case, "document": W.document(case), "config": "asyncio-graphql()"}
+        keys = [f["key"] for f in case["fields"]]
+        started = -1
+        late = None
+        with lock:
+            trace = list(w.trace)
+        for kind, path in trace:
+            top = keys.index(path[0])
+            if kind == "call" and len(path) == 1:
+                started = max(started, top)
+            elif top < started and late is None:
+                late = (kind, path, keys[started])
+        if late:
+            ctx.fail("%s:abandoned-resolver-ran:asyncio-graphql():%s" % (prop.lower(), "/".join(str(x) for x in late[1])),
+                     "the %s of resolver %r happened after top-level field %r had started, although its field had been abandoned "
+                     "(its list failed while being completed)" % (late[0], late[1], late[2]), dict(detail, trace=trace))
+            continue
+        bad = compare_to_reference(case, ref, obs, "asyncio-graphql()")
+        if bad:
+            ctx.fail("%s:%s:asyncio-graphql():abandoned-list-field" % (prop.lower(), bad[0]), bad[1], detail)
+    ctx.extra["abandoned_stage_runs"] = n
+
+
 def run(ctx):
     W.quiet()
     chk = Checker(ctx, "C08")
@@ -1040,6 +1225,8 @@ def run(ctx):
         args_stream(ctx, 12 if ctx.tier == "quick" else 120)
         runtime_api_stream(ctx)
         history_stream(ctx, "C08")
+        probe_many_root_fields(ctx, "C08", kinds=("query",))
+        probe_resolver_raises_execution_error(ctx)
     finally:
         W.close_private_loop()
     ctx.extra["configurations"] = list(CONFIGS)
@@ -1049,6 +1236,16 @@ def run(ctx):
 def replay(ctx, data):
     W.quiet()
     inp = data.get("input", {})
+    if inp.get("probe"):
+        before = len(ctx.found)
+        try:
+            if inp["probe"] == "many-root-fields":
+                probe_many_root_fields(ctx, "C08", kinds=(inp.get("kind", "query"),))
+            else:
+                probe_resolver_raises_execution_error(ctx)
+        finally:
+            W.close_private_loop()
+        return len(ctx.found) == before
     if inp.get("stream") == "history":
         before = len(ctx.found)
         try:
